@@ -48,6 +48,7 @@ proof fn vacuity_pre(v: real, a: real, l: real) requires a > 0real, is_intr(a * 
 ''', 'vacuity: lemma premises')
     asm.raw(common.FOOTER)
     return dict(
+        composes_with={'C02': '*'},      # the Function operators used here are the contracts proved in C02
         min_items=12,
         trusted_base=common.TRUSTED_COMMON + common.T4_COLLECTIONS + [
             'T5 ASSUMED callee contracts: Function::content_factor (integrality of a*f on integer points), Function::evaluate_bound (enclosure), get_kinds, used_decision_variable_ids, defined_ids, f64*Function and Function+Linear (pure, value up to an explicit remainder)',
